@@ -13,7 +13,7 @@ LEAN_PROPS = "Dashu.Props.C14"
 LEAN_AUDIT = "Dashu.Audit.C14"
 # Tie A, typed translator: float/src/cmp.rs and rational/src/cmp.rs regenerated and proved equal to `Model/Cross/Ord.lean`
 USES_GEN = True
-GEN_PROPS = ["Dashu.Props.GenFloatCmp", "Dashu.Props.GenRatCmp", "Dashu.Props.C14Link", "Dashu.Props.C14EstNoStd", "Dashu.Props.C14I128"]
+GEN_PROPS = ["Dashu.Props.GenFloatCmp", "Dashu.Props.GenRatCmp", "Dashu.Props.C14Link", "Dashu.Props.C14EstNoStd", "Dashu.Props.C14I128", "Dashu.Props.C14Shl"]
 GEN_AUDIT = ["Dashu.Audit.GenFloatCmp", "Dashu.Audit.GenRatCmp", "Dashu.Audit.C14Ext"]
 
 M127 = (1 << 127) - 1
@@ -703,6 +703,10 @@ REFINED = [
     "table, because C05's representation builder natWords is quadratic) and proved equal to the value-level tables for every word size "
     "by importing C05's ubig_cmp / ibig_cmp (Props/C14Link: num_partial_cmp_mirrored, abs_cmp_mirrored, ord_cmp_mirrored, num_ord_exact_words ...); "
     "every `compare l r` of an exact step is linked the same way (exact_step_is_mirrored_cmp)",
+    "the `<<` inside the exact steps (float/src/utils.rs shl_digits arms `2 => value << exp`, `b.is_power_of_two() => value << exp * trailing_zeros`; the `* 2^n` "
+    "scalings against decoded f32/f64): the model's x * 2^n / shlDigits 2^k x n is proved equal, for every word size, to C09's mirrored Shl<usize> for IBig "
+    "(integer/src/shift_ops.rs, ibigShl) on the canonical representation by importing C09's ibig_shl_exact, and 'shift, then Ord / abs_cmp' to the composition of "
+    "C09's shift and C05's mirrored cmp (Props/C14Shl: shl_mirrored, shl_digits_base2/pow2_mirrored, exact_step_shl_cmp_mirrored, exact_step_shl_abs_cmp_mirrored)",
     "the no_std (table) log2_bounds estimators of integers and rationals: base/src/math/log.rs no_std impls for u8 / u16 / u32..u128, "
     "integer/src/log.rs log2_bounds_large, rational/src/repr.rs log2_bounds — mirrored over Rat with the binary32 operations (round-to-nearest, "
     "next_down, next_up) as parameters (Model/Cross/EstNoStd.lean) and PROVED to satisfy the enclosure hypothesis for all inputs, word sizes >= 32, "
@@ -710,8 +714,10 @@ REFINED = [
     "exact arithmetic is the driver's third oracle (table_oracle_sound), run on every comparison",
 ]
 FRONTIER = [
-    "shl_digits / << / * / UBig::pow on big integers inside the exact steps: used at their value (* B^n, * 2^n); owned by C01/C09 (mirrored and proved "
-    "there); the comparisons that follow them are no longer at their value (linked to C05, see REFINED)",
+    "* / UBig::pow / IBig::pow on big integers inside the exact steps (shl_digits arms for base 10 and non-power-of-two bases, the 5^n factor, ratio cross "
+    "products): used at their value (* B^n); owned by C01/C04 (mirrored and proved there, not linked here by import). The `<<` of those steps (x * 2^n, shl_digits "
+    "for bases 2 and 2^k) IS linked to C09's mirrored Shl<usize> for IBig (Props/C14Shl) and the comparisons that follow to C05 (Props/C14Link); the driver still "
+    "evaluates the shift at its value (proved equal)",
     "num-modular u128::mulm inside invm (a*b mod m through udouble) used at its value; machine u128 sums of FixedMersenne are Nat sums (proved overflow-free on residues)",
     "the std-path f32 estimators (libm log2f inside u8..u128 log2_bounds) and Repr<B>::log2_bounds / digits_ub of the float crate in both paths: a PARAMETER of the "
     "theorems; the enclosure hypothesis is checked on the real code per generated input by the harness op log2encl (certified integer interval arithmetic), "
@@ -787,7 +793,8 @@ THEOREMS = ["Dashu.Props.C14." + n for n in (
     "num_ord_exact_words abs_ord_exact_words ord_exact_words exact_step_is_mirrored_cmp").split()] + ["Dashu.Props.C14EstNoStd." + n for n in (
     "u8_encloses prim_encloses large_encloses nat_encloses rat_encloses oracle_sound_of_float_part exact_arithmetic_meets_ax "
     "table_oracle_sound num_ord_exact_table_path").split()] + ["Dashu.Props.C14I128." + n for n in (
-    "wrapI128_id decode_small mul_range repr_num_ord_float_i128 repr_num_ord_float_i128_decode").split()]
+    "wrapI128_id decode_small mul_range repr_num_ord_float_i128 repr_num_ord_float_i128_decode").split()] + ["Dashu.Props.C14Shl." + n for n in (
+    "shl_mirrored shl_digits_base2_mirrored shl_digits_pow2_mirrored exact_step_shl_cmp_mirrored exact_step_shl_abs_cmp_mirrored").split()]
 TECHNIQUE = "Lean 4 theorems over an executable mirrored model with estimate-oracle parameters + differential correspondence model vs real code"
 JOBS = 14
 READY = True
